@@ -327,6 +327,63 @@ func drawCase(t *rapid.T) *Case {
 	return c
 }
 
+// TestBigGroups: pooled data with one large tie group of every size (up to what the tied
+// limit allows) between a few small groups, split about evenly.
+func TestBigGroups(t *testing.T) {
+	if ev.Replaying() {
+		return
+	}
+	ev.Rule(rule)
+	var cases []*Case
+	small := [][]int{{}, {1, 1}, {2}, {1, 2}}
+	if !ev.Thorough() {
+		small = [][]int{{}, {1, 1}, {2}}
+	}
+	for g := 2; g <= 48; g++ {
+		for _, before := range small {
+			for _, after := range small {
+				T := append(append(append([]int{}, before...), g), after...)
+				if len(T) < 2 {
+					continue
+				}
+				N := 0
+				for _, x := range T {
+					N += x
+				}
+				if N > 50 {
+					continue
+				}
+				n1 := N / 2
+				// deal the pooled values alternately, so that the big group is shared about evenly
+				var x1, x2 []float64
+				i := 0
+				for gi, tg := range T {
+					for k := 0; k < tg; k++ {
+						if i%2 == 0 && len(x1) < n1 || len(x2) >= N-n1 {
+							x1 = append(x1, float64(gi))
+						} else {
+							x2 = append(x2, float64(gi))
+						}
+						i++
+					}
+				}
+				if len(x1) == 0 || len(x2) == 0 || len(x1) > 25 || len(x2) > 25 {
+					continue
+				}
+				for alt := -1; alt <= 1; alt++ {
+					cases = append(cases, &Case{X1: gen.PseudoShuffle(x1), X2: gen.PseudoShuffle(x2), Alt: alt})
+				}
+			}
+		}
+	}
+	ev.Parallel(t, len(cases), func(tb ev.TB, i int) {
+		if ev.MyShare(i) {
+			checkMWU.RunEnum(tb, cases[i])
+		}
+	})
+	ev.Exhaustive(fmt.Sprintf("pooled samples with one big tie group of every size 2..48 between small groups (%d calls)", len(cases)))
+}
+
 func TestRandom(t *testing.T) {
 	ev.Rule(rule)
 	ev.Rapid(t, "c01-random", 2000, 24000, func(rt *rapid.T) {
